@@ -51,6 +51,9 @@ M = [
  ("concat_buffer_from_source", "src/concat_source.rs", "        .map(|child| child.buffer())\n", "        .map(|child| Cow::<[u8]>::Owned(child.source().as_bytes().to_vec()))\n", {"C07": "V"}),
  ("concat_rope_reversed", "src/concat_source.rs", "      for child in children {\n        let child_rope = child.rope();", "      for child in children.iter().rev() {\n        let child_rope = child.rope();", {"C07": "V"}),
  ("benign_concat_len_check", "src/concat_source.rs", "    if children.len() == 1 {\n      children[0].buffer()", "    if 1 == children.len() {\n      children[0].buffer()", {"C07": "P2"}),
+ ("leaf_rawbuffer_size_of_text", "src/raw_source.rs", "  fn size(&self) -> usize {\n    self.value.len()\n  }", "  fn size(&self) -> usize {\n    self.source().len()\n  }", {"C07": "V"}),
+ ("leaf_original_buffer_is_name", "src/original_source.rs", "    Cow::Borrowed(self.value.as_bytes())", "    Cow::Borrowed(self.name.as_bytes())", {"C07": "V"}),
+ ("leaf_rawsource_rope_of_lossy_only", "src/raw_source.rs", "      RawValue::String(s) => Rope::from(s),", "      RawValue::String(s) => Rope::from(&s[..s.len().min(3)]),", {"C07": "V"}),
  # ---- breaking: Rope observers (unit rope_obs) ----
  ("ropeobs_ends_with_last_piece", "src/rope.rs", "          if !chunk.is_empty() {\n            return chunk.ends_with(value);\n          }", "          return chunk.ends_with(value);", {"C16": "V"}),
  ("ropeobs_starts_with_equality", "src/rope.rs", "          // every piece of `value` matched: `value` is a prefix, whatever remains\n          true", "          remaining.is_empty()", {"C16": "V"}),
